@@ -259,7 +259,7 @@ func (u *Unit) schemaIDs(decls ...*ast.FuncDecl) (map[string]bool, []string) {
 				return true
 			}
 			e := ret.Results[0]
-			s := types.ExprString(e)
+			s := u.RefExpr(decl, types.ExprString(e))
 			key := s
 			switch x := e.(type) {
 			case *ast.UnaryExpr:
@@ -335,7 +335,7 @@ func runC08(c *Ctx) {
 				want := builderFor(id)
 				ast.Inspect(cl, func(m ast.Node) bool {
 					ta, ok := m.(*ast.TypeAssertExpr)
-					if !ok || ta.Type == nil || types.ExprString(ta.X) != "b" {
+					if !ok || ta.Type == nil || u.RefExpr(decl, types.ExprString(ta.X)) != "b" {
 						return true
 					}
 					got := types.ExprString(ta.Type)
